@@ -1,6 +1,7 @@
 import Srtla.Lemmas.ForwardRun
 import Srtla.Lemmas.SendAll
 import Srtla.Lemmas.RunLevelGhost
+import Srtla.Lemmas.RunLevelGhostReload
 import Srtla.Lemmas.SysDir
 import Srtla.Lemmas.SysInvQual
 import Srtla.Props.C03
@@ -1026,5 +1027,167 @@ example (evs : List Ev) :=
     evs
 
 end droppedExamples
+
+/-! ## 12. Exactly once over a run WITH reloads -/
+
+section reloadRun
+open Srtla.Props.SysReload
+
+/-- The vocabulary of the run with reloads, spelled out (`Lemmas/RunLevelGhostReload.lean`).  `runR` is `runG` on
+every event that keeps the link set; at a reload the ghost CARRIES THE INDEX RENAMING THE RELOAD INDUCES (it is not
+re-keyed by conn id): the bins are walked next to the links with the predicate of `retained`, a retained link's
+bins move with it to its new index, a removed link's bins are retired into `gone` (stamped with the reload's event
+index `k` and the link's conn id `cid`; what was still queued is filed under `lost` with that `k`), a created link
+gets empty bins.  `ucountR t r` counts the `unique` copies of tag `t` in wire ∪ queued ∪ lost of every CURRENT link,
+in the bins of every REMOVED link, plus the dropped list.  `wireOfId c r` is everything filed under `wire` for conn
+id `c` (removed links in removal order, then the current one); `wireLogId s evs c` is read off the real run alone:
+the data-path datagrams the events put on the socket of conn id `c` while `c` names a link present in the state
+the event starts from.  `LostOk s evs cid (k, x)`: `evs[k]` exists and, in the state `sk` after the first `k`
+events, either discarded the queue of the link carrying `cid` (at the index `j` it had THEN) with a `LossCause`,
+or is a reload whose address list no longer names that link, on which `x` was queued. -/
+theorem C01_ghost_reload_def (t : Nat) (r : GR F) (c : Nat) (s : Sys F) (evs : List Ev) (cid : Nat) (kx : Nat × GItem) :
+    ucountR t r = ucount t r.g + (r.gone.map fun e => e.bins.all.countP (fun x => x.tag == t && decide (x.kind = .unique))).sum ∧
+    wireOfId c r = wgone c r.gone ++ wcur c r.g.bins r.g.sys.links ∧
+    (∀ ev evs', wireLogId s (ev :: evs') c =
+      (if c ∈ ids s.links then dataWire ev (step s ev).2 c else []) ++ wireLogId (step s ev).1 evs' c) ∧
+    (LostOk s evs cid kx ↔ ∃ ev, evs[kx.1]? = some ev ∧
+      ((∃ j l l', (run s (evs.take kx.1)).1.links[j]? = some l ∧ l.core.connId = cid ∧
+          (step (run s (evs.take kx.1)).1 ev).1.links[j]? = some l' ∧
+          LossCause (run s (evs.take kx.1)).1 ev j l l') ∨
+       (∃ now addrs outs l, ev = .reload now addrs outs ∧ l ∈ (run s (evs.take kx.1)).1.links ∧
+          l.core.connId = cid ∧ addrs.contains l.addr = false ∧ kx.2.item ∈ l.queue))) :=
+  ⟨rfl, rfl, fun _ _ => rfl, Iff.rfl⟩
+
+/-- **Exactly once, intact, in order — over every run, RELOADS INCLUDED** (no `NoReload` hypothesis).  From every
+state satisfying `Inv`, after ANY event list whose reloads draw conn ids that are new among the links present at
+that moment (`FreshRun`: `rand::rng().next_u64()`, no check in `connect_uplink`; collision ≈ 2⁻⁶⁴ per pair), in the
+instrumented run `r = runR (rinit s) evs`:
+1. erasing the ghost gives `Sys.run`; one set of bins per CURRENT link; the acceptance log is (what was queued
+   initially, then) the non-empty client datagrams of the event list, in order, tags `0, 1, 2, …`; the tag
+   counter, acceptance log and dropped list are those of `runG` (`C01_dropped_bookkeeping_run` and
+   `C01_dropped_only_without_usable_link_run` speak about this run's dropped list);
+2. for every accepted datagram the number of `unique` copies among (put on the wire by a current or a removed
+   link) ∪ (still queued on a CURRENT link) ∪ (discarded — by a current or a removed link) ∪ (dropped) is EXACTLY
+   ONE (`ucountR`);
+3. "still queued" is real and current: a current link's queue mirror erases to its real queue at the end of the
+   run; the bins of a removed link hold nothing queued;
+4. "put on the wire" is real: for EVERY conn id, what the ghost filed under `wire` for it is exactly what the run's
+   data path put on the sockets of that conn id, in order, byte for byte (`wireOfId c r = wireLogId s evs c`);
+5. every copy anywhere — current or retired bins, sent, queued or discarded, unique or probe — carries byte for
+   byte the datagram the client sent under its tag, and so does every dropped entry; per link (current or
+   removed) wire order then queue order is strictly increasing tag order (acceptance order, no tag twice on one
+   link); a probe copy exists only on a link that was stall-gated AND connected when it was enqueued, the unique
+   copy of an established session was enqueued on an eligible link;
+6. every `lost` entry has a RECORDED CAUSE (`LostOk`, spelled out in `C01_ghost_reload_def`): one of the four
+   `LossCause` arms at the event it names, for the link that carried that conn id at that moment — or "queued on an
+   uplink that a reload removed".
+Still per stretch only (by index, `C01_exactly_once_run` item 6): the 1-in-100 probe RATE bound. -/
+theorem C01_exactly_once_run_reload (s : Sys F) (h : Inv s) (evs : List Ev) (hf : FreshRun s evs) :
+    let r := runR (rinit s) evs
+    (r.g.sys = (run s evs).1 ∧ r.g.bins.length = (run s evs).1.links.length ∧
+      r.g.accepted.map (·.2) = (ginit s).accepted.map (·.2) ++ evs.filterMap accepts ∧
+      r.g.accepted.map (·.1) = List.range r.g.next ∧
+      r.g.next = (runG (ginit s) evs).next ∧ r.g.accepted = (runG (ginit s) evs).accepted ∧
+      r.g.dropped = (runG (ginit s) evs).dropped) ∧
+    (∀ tb ∈ r.g.accepted, ucountR tb.1 r = 1) ∧
+    ((∀ (i : Nat) (b : Bins), r.g.bins[i]? = some b → b.queued.map (·.item) = queueOf (run s evs).1 i) ∧
+      ∀ e ∈ r.gone, e.bins.queued = []) ∧
+    (∀ c, wireOfId c r = wireLogId s evs c) ∧
+    ((∀ b, (b ∈ r.g.bins ∨ ∃ e ∈ r.gone, e.bins = b) →
+        (∀ x ∈ b.all, (x.tag, x.bytes) ∈ r.g.accepted) ∧
+        (b.wire ++ b.queued).Pairwise (fun x y => x.tag < y.tag) ∧
+        ∀ x ∈ b.all, (x.kind = .probe → x.gated = true ∧ x.elig = false ∧ x.estab = true) ∧
+          (x.kind = .unique → x.estab = true → x.elig = true ∧ x.gated = false)) ∧
+      ∀ x ∈ r.g.dropped, x ∈ r.g.accepted) ∧
+    ((∀ (i : Nat) (b : Bins) (l : FLink F), r.g.bins[i]? = some b → (run s evs).1.links[i]? = some l →
+        ∀ kx ∈ b.lost, LostOk s evs l.core.connId kx) ∧
+      ∀ e ∈ r.gone, ∀ kx ∈ e.bins.lost, LostOk s evs e.cid kx) := by
+  intro r
+  obtain ⟨hr, hh⟩ := runR_inv s [] (rinit s) (rinit_inv s h) (rinit_hinv s) evs hf
+  have hsys : r.g.sys = (run s evs).1 := runR_sys _ _
+  obtain ⟨s1, s2, s3⟩ := runR_scalars (rinit s) (ginit s) evs rfl rfl rfl rfl
+  have hok : ∀ b, (b ∈ r.g.bins ∨ ∃ e ∈ r.gone, e.bins = b) → BinOk r.g.next r.g.accepted b := by
+    rintro b (hb | ⟨e, he, rfl⟩)
+    · obtain ⟨i, hi, hget⟩ := List.getElem_of_mem hb
+      exact hr.ok i b (by rw [List.getElem?_eq_getElem hi, hget])
+    · exact (hr.okGone e he).1
+  refine ⟨⟨hsys, by rw [← hsys]; exact hr.len, ?_, hr.acc, s1, s2, s3⟩, ?_, ⟨?_, fun e he => (hr.okGone e he).2⟩,
+    hh.wire, ⟨fun b hb => ⟨(hok b hb).bytes, (hok b hb).sorted,
+      fun x hx => ⟨(hok b hb).probe x hx, (hok b hb).unique x hx⟩⟩, hr.dropped⟩, ?_, hh.lostGone⟩
+  · show (runR (rinit s) evs).g.accepted.map (·.2) = _
+    rw [s2]; exact runG_accepted _ _
+  · intro tb htb
+    apply hr.once
+    have : tb.1 ∈ r.g.accepted.map (·.1) := List.mem_map.2 ⟨tb, htb, rfl⟩
+    rw [hr.acc] at this
+    exact List.mem_range.1 this
+  · intro i b hb
+    rw [← hsys]; exact hr.aligned i b hb
+  · intro i b l hb hl kx hkx
+    rw [← hsys] at hl
+    exact hh.lost b l ((mem_zip_iff_get _ _ _ _).2 ⟨i, hb, hl⟩) kx hkx
+
+end reloadRun
+
+section reloadExamples
+open Srtla.Props.SysReload
+
+/-- `exSys` with distinct uplink addresses (1 and 2). -/
+def exSysR : Sys Int :=
+  { exSys with links := [{ exLinkA with addr := 1 }, { exLinkB with addr := 2 }] }
+
+/-- A run WITH a reload that removes an uplink holding queued datagrams: a control packet (tag 0) and a data packet
+(tag 1) are queued on link 0 (conn id 1; link 1, conn id 3, gets the probe copy of tag 1); the reload (event
+index 2) keeps address 2, drops address 1 and adds address 3 (drawn conn id 7); a third datagram (tag 2) and a
+flush follow. -/
+def exEvsR : List Ev :=
+  [.client 5000 exCtl, .client 5001 exData, .reload 5005 [2, 3] [some 7], .client 5006 exCtl, .flush 5010]
+
+def exR1 : GR Int := @runR Int fixScalar (rinit exSysR) exEvsR
+
+/-- The removed link's bins are retired (event index 2, conn id 1): its two queued unique copies are in its LOST
+bin, stamped 2; the surviving link (conn id 3, now at index 0) kept its bins through the renaming and sent the probe
+copy of tag 1 and the unique copy of tag 2; the new link (conn id 7) has empty bins; every tag has EXACTLY ONE
+unique copy; the wire bins per conn id are the real per-conn-id wire logs. -/
+example :
+    exR1.g.accepted.map (·.1) = [0, 1, 2] ∧
+    (exR1.g.sys.links.map fun l => (l.core.connId, l.addr)) = [(3, 2), (7, 3)] ∧
+    (exR1.g.bins.map fun b => (b.wire.map (·.tag), b.queued.map (·.tag), b.lost.map fun kx => (kx.1, kx.2.tag))) =
+      [([1, 2], [], []), ([], [], [])] ∧
+    (exR1.gone.map fun e => (e.k, e.cid, e.bins.wire.map (·.tag), e.bins.queued.map (·.tag))) = [(2, 1, [], [])] ∧
+    (exR1.gone.map fun e => e.bins.lost.map fun kx => (kx.1, kx.2.tag, kx.2.kind)) =
+      [[(2, 0, .unique), (2, 1, .unique)]] ∧
+    ucountR 0 exR1 = 1 ∧ ucountR 1 exR1 = 1 ∧ ucountR 2 exR1 = 1 ∧ exR1.g.dropped = [] := by
+  decide +kernel
+
+example :
+    @wireOfId Int 1 exR1 = [] ∧ @wireLogId Int fixScalar exSysR exEvsR 1 = [] ∧
+    @wireOfId Int 3 exR1 = [exData, exCtl] ∧ @wireLogId Int fixScalar exSysR exEvsR 3 = [exData, exCtl] := by
+  decide +kernel
+
+/-- The hypotheses of `C01_exactly_once_run_reload` hold of this run: `Inv`, and the drawn id 7 is new. -/
+example : @Inv Int exSysR ∧ @FreshRun Int fixScalar exSysR exEvsR := by
+  refine ⟨⟨by decide, by decide⟩, fun _ _ _ h => (by cases h), fun _ _ _ h => (by cases h), ?_,
+    fun _ _ _ h => (by cases h), fun _ _ _ h => (by cases h), trivial⟩
+  intro now addrs outs h
+  cases h
+  refine ⟨by decide, ?_⟩
+  intro i hi
+  have : i = 7 := by simpa using hi
+  subst this
+  decide +kernel
+
+/-- … and the cause recorded for the retired copies is the reload: `LostOk`'s second arm holds of entry `(2, tag 0)`
+(event 2 is the reload, the link with conn id 1 is present before it, its address 1 is not in `[2, 3]`, and the
+control packet is queued on it). -/
+example :
+    exEvsR[2]? = some (.reload 5005 [2, 3] [some 7]) ∧
+    ((@run Int fixScalar exSysR (exEvsR.take 2)).1.links.map fun l =>
+        (l.core.connId, ([2, 3] : List Nat).contains l.addr, l.queue.map (·.1))) =
+      [(1, false, [exCtl, exData]), (3, true, [exData])] := by
+  refine ⟨rfl, ?_⟩
+  decide +kernel
+
+end reloadExamples
 
 end Srtla.Props.C01
